@@ -37,7 +37,7 @@ def gen(tier, seed):
     for _ in range(nrand):
         big = rng.random() < 0.03
         so = G.SchemaOpts(funcs=True, deprecated=rng.random() < 0.3, keystrval=True, nodefault=True, depth=4 if big else 3, maxopts=20 if big else 5,
-                          simple=True, null_sub=True)
+                          simple=True, null_sub=True, oddnames=True)
         decls = G.gen_schema(rng, so)
         nocase = rng.random() < 0.25
         to = {'nocase': nocase, 'titles': ['a', 'A', 'b', 'web', 'Web', 'two words', '', 'x=y'] if nocase else None, 'oddkeys': not nocase}
